@@ -367,6 +367,23 @@ def r4_legacy(ctx):
     rd = corpus.method(cls, '_decrypt_snapshot_body')
     allowed = {'self.deserialize', 'self.props.decrypt', 'self.props.derive_shared_subkey', 'self.props.hash_digest'}
     bad = [c for c in calls_in(rd.node) if (dotted(c.func) or '') not in allowed and not (dotted(c.func) or '').startswith(('logger.', 'logging.'))]
+    # ... and nothing but the two top-level fields of the decoded body is (re)assigned, to decoded values or None
+    params_rd = [a.arg for a in rd.node.args.posonlyargs + rd.node.args.args][1:]
+    for n in walk_local(rd.node):
+        tgts = []
+        if isinstance(n, ast.Assign):
+            tgts = n.targets
+        elif isinstance(n, (ast.AugAssign, ast.AnnAssign)):
+            tgts = [n.target]
+        elif isinstance(n, ast.Delete):
+            tgts = n.targets
+        for t in tgts:
+            if isinstance(t, ast.Subscript):
+                top = isinstance(t.value, ast.Name) and isinstance(t.slice, ast.Constant)
+                val = getattr(n, 'value', None)
+                val_ok = isinstance(n, ast.Assign) and ((isinstance(val, ast.Constant) and val.value is None) or (isinstance(val, ast.Call) and dotted(val.func) == 'self.deserialize'))
+                if not (top and val_ok):
+                    bad.append(n)
     ctx.check(
         not bad,
         'C14.R6',
